@@ -24,6 +24,13 @@ TreesOf(shape) ==
                         \cup {<<"fn", f, Bin(o, a, b)>> : f \in Fns, o \in BinOps, a \in FewLeaves, b \in FewLeaves}
       [] shape = "left" -> {Bin(o2, Bin(o1, a, b), c) : o1 \in BinOps, o2 \in BinOps, a \in FewLeaves, b \in FewLeaves, c \in FewLeaves}
       [] shape = "right" -> {Bin(o2, a, Bin(o1, b, c)) : o1 \in BinOps, o2 \in BinOps, a \in FewLeaves, b \in FewLeaves, c \in FewLeaves}
+      [] shape = "spec" ->       \* NaN and the infinities under every operator, alone and one level down
+            {Bin(o, a, b) : o \in BinOps, a \in SpecMix, b \in SpecMix}
+            \cup {<<"un", u, a>> : u \in UnOps, a \in SpecLeaves} \cup {<<"fn", f, a>> : f \in Fns, a \in SpecLeaves}
+            \cup {Bin(o, <<"un", "minus", a>>, b) : o \in BinOps, a \in SpecMix, b \in SpecMix}
+            \cup {Bin(o2, Bin(o1, a, b), c) : o1 \in BinOps, o2 \in BinOps, a \in SpecLeaves \cup {<<"leaf", TkN(NInt(0))>>, <<"leaf", TkN(NInt(2))>>},
+                                              b \in SpecLeaves \cup {<<"leaf", TkN(NInt(0))>>, <<"leaf", TkN(NInt(2))>>},
+                                              c \in {<<"leaf", TkS("symbol", B("QN"))>>, <<"leaf", TkS("symbol", B("QP"))>>, <<"leaf", TkN(NInt(0))>>, <<"leaf", TkN(NInt(1))>>}}
       [] shape = "three" ->
             LET L3 == {<<"leaf", t>> : t \in {TkN(NInt(2)), TkN(NInt(3)), TkN(NInt(0)), TkS("stringliteral", B("A"))}}
             IN  {Bin(o3, Bin(o2, Bin(o1, a, b), c), d) : o1 \in BinOps, o2 \in BinOps, o3 \in BinOps, a \in L3, b \in L3, c \in L3, d \in {<<"leaf", TkN(NInt(2))>>}}
